@@ -698,7 +698,14 @@ func (s *Server) handleResponse(response *agent.Response) error {
 		return errors.New(msg.Error.Error)
 	case *agent.Response_Begin:
 		s.begin = msg.Begin
-		s.points = make([]edge.BatchPointMessage, 0, msg.Begin.Size)
+		// The size is only a hint from the process, do not trust it with the allocation.
+		size := msg.Begin.Size
+		if size < 0 {
+			size = 0
+		} else if size > maxBatchSizeHint {
+			size = maxBatchSizeHint
+		}
+		s.points = make([]edge.BatchPointMessage, 0, size)
 	case *agent.Response_Point:
 		if s.points != nil {
 			bp := edge.NewBatchPointMessage(
@@ -734,6 +741,9 @@ func (s *Server) handleResponse(response *agent.Response) error {
 			}
 		}
 	case *agent.Response_End:
+		if s.begin == nil {
+			return errors.New("received EndBatch message without a preceding BeginBatch message")
+		}
 		begin := edge.NewBeginBatchMessage(
 			msg.End.Name,
 			msg.End.Tags,
@@ -754,7 +764,10 @@ func (s *Server) handleResponse(response *agent.Response) error {
 		s.begin = nil
 		s.points = nil
 	default:
-		panic(fmt.Sprintf("unexpected response message %T", msg))
+		return fmt.Errorf("unexpected response message %T", msg)
 	}
 	return nil
 }
+
+// maxBatchSizeHint bounds the capacity allocated up front for a batch announced by the process.
+const maxBatchSizeHint = 4096
